@@ -42,6 +42,8 @@ pub struct Ctx {
     /// scale factor for case counts (VERIF_SCALE, default 1.0; used by
     /// sensitivity runs to shorten or lengthen campaigns)
     pub scale: f64,
+    /// worker mode: write the evidence to this file instead of evidence/<id>.json
+    pub fragment: Option<PathBuf>,
 }
 
 impl Ctx {
@@ -191,7 +193,11 @@ where
                         let mut runner = TestRunner::new(config);
                         let stats = RefCell::new(Stats::default());
                         let failed = std::cell::Cell::new(false);
+                        let trace: Option<PathBuf> = std::env::var("MLV_TRACE_DIR").ok().map(|d| PathBuf::from(d).join(format!("s{stream}-w{w}.json")));
                         let res = runner.run(&recipe_strategy(), |r| {
+                            if let Some(t) = &trace {
+                                let _ = std::fs::write(t, r.to_json().to_string());
+                            }
                             if failed.get() {
                                 // shrinking: evaluate without touching the statistics
                                 let mut scratch = Stats::default();
@@ -256,13 +262,14 @@ where
     let chunk = (n / (threads as u64 * 64)).clamp(1, 1 << 20);
     let results: Vec<(Stats, Option<Failure>)> = std::thread::scope(|s| {
         let handles: Vec<_> = (0..threads)
-            .map(|_| {
+            .map(|w| {
                 let check = &check;
                 let stop = &stop;
                 let next = &next;
                 std::thread::Builder::new()
                     .stack_size(64 << 20)
                     .spawn_scoped(s, move || {
+                        let trace: Option<PathBuf> = std::env::var("MLV_TRACE_DIR").ok().map(|d| PathBuf::from(d).join(format!("sweep{n}-w{w}.json")));
                         let mut stats = Stats::default();
                         loop {
                             if stop.load(Ordering::Relaxed) {
@@ -274,6 +281,9 @@ where
                             }
                             let hi = (lo + chunk).min(n);
                             for i in lo..hi {
+                                if let Some(t) = &trace {
+                                    let _ = std::fs::write(t, format!("{{\"sweep_index\": {i}, \"sweep_size\": {n}}}"));
+                                }
                                 stats.evaluations += 1;
                                 if let Err(f) = check(i, &mut stats) {
                                     stop.store(true, Ordering::Relaxed);
@@ -411,7 +421,10 @@ pub fn finish(ctx: &Ctx, mut rep: Report) -> i32 {
     });
     let edir = ctx.verif_dir.join("evidence");
     std::fs::create_dir_all(&edir).ok();
-    let epath = edir.join(format!("{}.json", ctx.id));
+    let epath = match &ctx.fragment {
+        Some(p) => p.clone(),
+        None => edir.join(format!("{}.json", ctx.id)),
+    };
     if let Err(e) = std::fs::write(&epath, serde_json::to_string_pretty(&ev).unwrap()) {
         eprintln!("cannot write evidence {}: {e}", epath.display());
         return 2;
@@ -448,8 +461,15 @@ pub fn require_counter(rep: &mut Report, name: &str, min: u64) {
     }
 }
 
+thread_local! {
+    static IN_CATCH: std::cell::Cell<u32> = const { std::cell::Cell::new(0) };
+}
+
 pub fn catch<R, F: FnOnce() -> R + std::panic::UnwindSafe>(f: F) -> Result<R, String> {
-    match std::panic::catch_unwind(f) {
+    IN_CATCH.with(|c| c.set(c.get() + 1));
+    let r = std::panic::catch_unwind(f);
+    IN_CATCH.with(|c| c.set(c.get() - 1));
+    match r {
         Ok(r) => Ok(r),
         Err(e) => {
             let msg = if let Some(s) = e.downcast_ref::<&str>() {
@@ -472,6 +492,10 @@ thread_local! {
 pub fn install_quiet_panic_hook() {
     std::panic::set_hook(Box::new(|info| {
         let loc = info.location().map(|l| format!("{}:{}", l.file(), l.line())).unwrap_or_default();
+        if IN_CATCH.with(|c| c.get()) == 0 {
+            // a panic outside the code under test: a harness bug, never hide it
+            eprintln!("HARNESS PANIC: {info}");
+        }
         LAST_PANIC_LOC.with(|c| *c.borrow_mut() = loc);
     }));
 }
